@@ -27,6 +27,11 @@ CLAIMED = {
          "Enumerates callback outcome x begin behaviour x second-phase reply sequences (transport failures up to the retry bound, then success/failed result) x retry setting {0,1,2,3} x cancellation point x joined scopes; checks never-both, no decision for joined scopes, decision matches the callback outcome, attempt bound, no retry after a result, and that nil is returned only for an acknowledged commit of a successful business.",
          "Fake TC on the independent wire codec; transport failure = no reply within the client's 20 s wait or a session reset; quick tier keeps at most one no-reply per sequence and two reset cases per retry setting.",
          "DESIGN.md §4 C04"),
+ "C05": ("exploration",
+         "runtime monitor: recording TCC actions registered through the public proxy API in a client child; the fake coordinator's frame log, synchronous marks emitted by the user methods (ordered by the world's logical clock) and the phase-two responses are compared with a model of the parameter-capture rules written in the check",
+         "Global transactions with 1..3 Prepare calls over 3 actions (ASCII, punctuated and non-ASCII names) x 13 parameter shapes (tagged / untagged / unexported / ignored fields, nested structs, maps, slices, nil and non-nil pointers, interface values, embedded action context by pointer / nil pointer / value with pre-filled entries, bare contexts, non-struct values, nil) x try outcome x registration {granted, refused, unanswered} x phase-two sequence {single, 2-3 repeats, unknown resource, empty / non-JSON / non-object application data, commit then rollback} x user outcome {ok, error then ok, false, panic}: one TCC BranchRegister with the modelled application data strictly before try; no try after a failed registration; per request exactly one call of the matching method with the same xid / branch id and a JSON-equivalent context; success status iff the user method returned no error; unknown resources and unreadable data run no user code, report no success and leave the client alive.",
+         "A request whose user method failed may stay unanswered or carry a retryable-failed status. The try outcome is scripted per action within one case.",
+         "DESIGN.md §4 C05"),
  "C07": ("exploration",
          "runtime monitor: real WithGlobalTx scope trees and gRPC/gin/dubbo integrations in a client child against the fake coordinator; oracle = reference interpreter of the documented propagation semantics over the coordinator's per-xid request log plus context observations inside and after every scope",
          "ALL scope chains up to depth 3 over six propagation modes x two outcomes, for a shared context and for a fresh context carrying the xid, plus sampled two-child trees; per logical transaction the begin and the single decision by its launcher, xid/role seen by every callback, precondition failures of Mandatory/Never, and integrity of the enclosing context after each inner scope are compared with the model. Integrations are coupled through the real metadata/http/attachment carriers with generated xid strings and every accepted key spelling.",
